@@ -15,6 +15,7 @@ package verifier
 //@ def canonProof(p) = canonOpenings(p.Openings) && canonFriProof(p.OpeningProof)
 
 //@ func (c *VerifierChip) rangeCheckProof(proof variables.Proof)
+//@   locals constant plonkSigma wire plonkZ plonkZNext partialProduct quotientPoly queryRound evalsProof evalsProofElement queryStep eval coeff
 //@   props C17 C05
 //@   circuit
 //@   requires chipok(c.glChip)
@@ -42,6 +43,7 @@ package verifier
 //@     plonk_ok(c.plonkChip) && pp_relation(c.plonkChip.commonData)
 
 //@ func NewVerifierChip(api frontend.API, commonCircuitData types.CommonCircuitData) (res *VerifierChip)
+//@   locals glChip friChip plonkChip poseidonGlChip poseidonBN254Chip
 //@   props C17 C03 C04
 //@   circuit sound-only
 //@   requires cd_ok(commonCircuitData)
@@ -73,6 +75,7 @@ package verifier
 //@     len(o.Batches[1].Values) == len(c.PlonkZsNext) && seg_eq(o.Batches[1].Values, 0, c.PlonkZsNext)
 
 //@ func (c *VerifierChip) GetChallenges(proof variables.Proof, publicInputsHash poseidon.GoldilocksHashOut, verifierData variables.VerifierOnlyCircuitData) (res variables.ProofChallenges)
+//@   locals config numChallenges challenger circuitDigest plonkBetas plonkGammas plonkAlphas plonkZeta
 //@   props C11 C14 C17 C05
 //@   circuit
 //@   requires c.commonData.Config.NumChallenges <= pow2(16) && c.commonData.Config.FriConfig.NumQueryRounds <= pow2(32)
@@ -108,12 +111,14 @@ package verifier
 // proof has the shape plonky2 demands and one query round per configured round is verified (VerifyFriProof's loop
 // calls verifyQueryRound in every iteration; what a round checks is C12/C13/C20).
 //@ func (c *VerifierChip) Verify(proof variables.Proof, publicInputs []gl.Variable, verifierData variables.VerifierOnlyCircuitData)
+//@   locals publicInputsHash proofChallenges initialMerkleCaps
 //@   props C17 C14 C03 C04
 //@   circuit sound-only
 //@   requires vchip_ok(c)
 //@   ensures canonProof(proof)
 
 //@ func (c *VerifierChip) Verify(proof variables.Proof, publicInputs []gl.Variable, verifierData variables.VerifierOnlyCircuitData)
+//@   locals publicInputsHash proofChallenges initialMerkleCaps
 //@   props C01
 //@   circuit sound-only
 //@   flag own-props-only
@@ -143,6 +148,7 @@ package verifier
 //@ def pack32(s, o) = s[o].Limb * pow2(96) + s[o+1].Limb * pow2(64) + s[o+2].Limb * pow2(32) + s[o+3].Limb
 
 //@ func (c *CircuitFixed) Define(api frontend.API) (err error)
+//@   locals verifierChip publicInputs glChip j publicInputLimb slicePub i pubU32 pubByte
 //@   props C03
 //@   circuit sound-only
 //@   requires cd_ok(c.CommonCircuitData)
@@ -156,11 +162,13 @@ package verifier
 // to equal a term over such values.  Both wrapper circuits are gnark circuit roots (`root`): the
 // classification of their fields is read from the struct tags of the real types.
 //@ func (c *CircuitFixed) Define(api frontend.API) (err error)
+//@   locals verifierChip publicInputs glChip j publicInputLimb slicePub i pubU32 pubByte
 //@   props C04
 //@   circuit sound-only root
 //@   ensures[key-pinned] implies(err == nil, pinned(c.VerifierData))
 
 //@ func (c *VerifierCircuit) Define(api frontend.API) (err error)
+//@   locals verifierChip
 //@   props C04
 //@   circuit sound-only root
 //@   requires cd_ok(c.CommonCircuitData)
